@@ -94,6 +94,8 @@ Record err_case := mkCase {
   k_traceback_app : bool;
   k_tbv : option N;                             (* the (non-empty) formatted traceback *)
   k_router_callee : option N;                   (* "callee" detail added by the router *)
+  k_callee_hook : hook;                         (* the callee application's onUserError override: returns / raises *)
+  k_caller_hook : hook;
   (* expected *)
   x_callee_define : list (option pyexc);
   x_caller_define : list (option pyexc);
@@ -114,16 +116,16 @@ Definition err_case_ok (c : err_case) : bool :=
   let meta := fun n => if String.eqb n "callee" then k_router_callee c else None in
   let call_req := 1%N in
   let p : pending := [(48%N, [mkRequest 1 false; mkRequest 2 false])] in
-  match invocation_error (MV:=N) (fun _ => 0%N) callee_reg (k_traceback_app c) (k_tbv c) INV_REQ (k_exn c) SendOk with
+  match invocation_error (MV:=N) (fun _ => 0%N) (k_callee_hook c) callee_reg (k_traceback_app c) (k_tbv c) INV_REQ (k_exn c) SendOk with
   | reply :: _ =>
       let seen := over_the_wire 48 call_req meta reply in
-      let '(p', d) := end_to_end (fun _ => 0%N) construct callee_reg caller_reg (k_traceback_app c) (k_tbv c) (k_exn c)
+      let '(p', d) := end_to_end (fun _ => 0%N) (k_callee_hook c) construct (k_caller_hook c) callee_reg caller_reg (k_traceback_app c) (k_tbv c) (k_exn c)
                                  INV_REQ call_req meta p in
       list_eqb (opt_eqb pyexc_eqb) dr1 (x_callee_define c)
       && list_eqb (opt_eqb pyexc_eqb) dr2 (x_caller_define c)
       && String.eqb (m_error reply) (x_wire_uri c)
       && tail_eqb (marshal_tail reply) (x_wire_tail c)
-      && Bool.eqb (snd (exception_from_message construct caller_reg seen)) (x_reported c)
+      && Bool.eqb (snd (exception_from_message construct (k_caller_hook c) caller_reg seen)) (x_reported c)
       && list_eqb N.eqb (match aget N.eqb 48%N p' with Some t => map rq_id t | None => [] end) (x_pending_after c)
       && delivery_ok call_req d (x_delivery c)
   | [] => false
